@@ -384,7 +384,7 @@ class Rewriter:
         raise ExtractError("no block after position %d" % start)
 
     # R3 / R6 -------------------------------------------------------------
-    def splice_fn(self, ret_name, spec, loops, before, after_open=None, loop_open=None):
+    def splice_fn(self, ret_name, spec, loops, before, after_open=None, loop_open=None, at_end=None):
         """Name the result, insert requires/ensures after the signature, loop
         invariants before loop bodies, proof text before literal anchors."""
         inserts = []  # (pos, text)
@@ -455,6 +455,11 @@ class Rewriter:
             self.hit("R6-proof")
         if after_open:
             inserts.append((ob + 1, ob + 1, "\n" + after_open.rstrip() + "\n"))
+            self.hit("R6-proof")
+        if at_end:
+            # proof text after the last statement of a unit-returning fn
+            cb = match_close(m, ob)
+            inserts.append((cb, cb, "\n" + at_end.rstrip() + "\n"))
             self.hit("R6-proof")
         for a, b, txt in sorted(inserts, key=lambda t: (t[0], t[1]), reverse=True):
             self.text = self.text[:a] + txt + self.text[b:]
